@@ -1,6 +1,8 @@
 package rules
 
 import (
+	"go/token"
+	"go/constant"
 	"go/types"
 	"sort"
 	"strings"
@@ -230,6 +232,8 @@ func checkC01(c *Ctx) {
 	c03QueueAnswered(c)
 	c05Pending(c)
 	c05PendingKey(c)
+	// the call's outcome is the server's answer, not what a notification handler returned (shared with C10)
+	c10HandlerErrorContained(c, "R-handler-error-contained")
 }
 
 // ---------------------------------------------------------------- R-id-canon
@@ -313,6 +317,25 @@ func c01Canon(c *Ctx) {
 			nFmt++
 			c.R.Violate("R-id-canon", "%v-rendered id in "+fname(fn), c.Pos(call.Pos()),
 				sprintf("%s renders a request id with fmt %%v and uses the text to match requests and answers: a decoded id is a float64 and %%v prints 1000000 as 1e+06, so ids >= 10^6 never match their int64-generated counterpart", fname(fn)))
+		})
+	}
+	// the renderer treats every integral float up to 2^53 (inclusive) as an integer: upper bounds it compares the value
+	// with must lie above 2^53
+	if canon != nil {
+		ir.EachInstr(canon, func(_ *ssa.BasicBlock, _ int, in ssa.Instruction) {
+			bin, ok := in.(*ssa.BinOp)
+			if !ok || (bin.Op != token.LSS && bin.Op != token.LEQ) {
+				return
+			}
+			cst, ok := bin.Y.(*ssa.Const)
+			if !ok || cst.Value == nil {
+				return
+			}
+			k, _ := constant.Float64Val(constant.ToFloat(cst.Value))
+			const two53 = 9007199254740992.0
+			okBound := (bin.Op == token.LSS && k > two53) || (bin.Op == token.LEQ && k >= two53)
+			c.R.Check(okBound, "R-id-canon", "integer range of the id renderer", c.Pos(bin.Pos()), sprintf("integral floats below %g are rendered as integers", k),
+				sprintf("the id renderer treats a float id as an integer only when it is %s %g: the id 2^53 itself (the largest integer a JSON number carries exactly) is rendered in exponent form on the decoding side and never matches the int64 it was sent as", bin.Op, k))
 		})
 	}
 	// every use of an id as a pending-table key goes through the renderer (or is a typed integer)
